@@ -109,13 +109,14 @@ Definition segments_spec (known : list (nat * nat)) (lo hi : nat) : list (nat * 
 Section Merge.
   Context {X : Type}.
   Variable kb ke : X -> nat.
+  (* stable insertion sort by the begin: an element goes before the first one that does not
+     begin earlier than it *)
   Fixpoint insert_by (x : nat * X) (l : list (nat * X)) : list (nat * X) :=
     match l with
     | [] => [x]
-    | y :: l' => if kb (snd y) <=? kb (snd x) then y :: insert_by x l' else x :: l
+    | y :: l' => if kb (snd x) <=? kb (snd y) then x :: l else y :: insert_by x l'
     end.
-  (* stable: an element goes after everything with a key <= its own *)
-  Definition sort_by (l : list (nat * X)) : list (nat * X) := fold_left (fun acc x => insert_by x acc) l [].
+  Definition sort_by (l : list (nat * X)) : list (nat * X) := fold_right insert_by [] l.
   Fixpoint greedy (covered : nat) (l : list (nat * X)) : list (nat * X) :=
     match l with
     | [] => []
@@ -151,6 +152,42 @@ Definition len_pres (lc : N -> text) (c : N) : bool :=
   | _ => false
   end.
 Definition Known_C07_nocase_len (lc : N -> text) (hay : text) : bool := negb (forallb (len_pres lc) hay).
+
+(* the results of find_text_regex from the engine's matches on the plain slice [hay] that
+   begins at codepoint sb: a match is its groups (group 0 = the whole match first), absent or
+   (start, end) in bytes; an expression is (has capture groups, its matches in order) *)
+Definition sgroup := option (nat * nat).
+Definition smatch := list sgroup.
+Definition g0 (m : smatch) : nat * nat := match m with Some g :: _ => g | _ => (0, 0) end.
+Definition group_sel (hay : text) (sb : nat) (g : nat * nat) : option (nat * nat) :=
+  match char_index hay (fst g), char_index hay (snd g) with
+  | Some b, Some e => Some (sb + b, sb + e)
+  | _, _ => None
+  end.
+Fixpoint caps_from (i : nat) (gs : list sgroup) : list (nat * (nat * nat)) :=
+  match gs with
+  | [] => []
+  | None :: gs' => caps_from (S i) gs'
+  | Some g :: gs' => (i, g) :: caps_from (S i) gs'
+  end.
+Fixpoint all_some {Y} (l : list (option Y)) : option (list Y) :=
+  match l with
+  | [] => Some []
+  | Some y :: l' => option_map (cons y) (all_some l')
+  | None :: _ => None
+  end.
+(* one result: (expression index, (capture group numbers, selections)); without capture groups
+   the whole match, with capture groups the groups that took part *)
+Definition sresult := (nat * (list nat * list (nat * nat)))%type.
+Definition result_spec (hay : text) (sb : nat) (caps : bool) (eidx : nat) (m : smatch) : option sresult :=
+  if caps then
+    let cs := caps_from 1 (tl m) in
+    option_map (fun sels => (eidx, (map fst cs, sels))) (all_some (map (fun c => group_sel hay sb (snd c)) cs))
+  else option_map (fun s => (eidx, ([], [s]))) (group_sel hay sb (g0 m)).
+Definition regex_spec (hay : text) (sb : nat) (es : list (bool * list smatch)) (allow_overlap : bool)
+  : option (list sresult) :=
+  all_some (map (fun im => result_spec hay sb (fst (nth (fst im) es (false, []))) (fst im) (snd im))
+                (merge_spec (fun m => fst (g0 m)) (fun m => snd (g0 m)) allow_overlap (map snd es))).
 
 (* find_text_sequence *)
 Fixpoint first_occ (nd hay : text) : option nat :=
